@@ -735,6 +735,17 @@ func (db *DB) doFollowLeaders(stream string, tables []*table, offsets []common.O
 				}
 			}
 		}
+		// A table that has nothing recorded for a source (e.g. it never flushed
+		// before we were restarted) needs that source's entries from the start,
+		// no matter how far the other tables have got.
+		for source := range earliestOffsetsBySource {
+			for _, os := range offsets {
+				if _, found := os[source]; !found {
+					earliestOffsetsBySource[source] = nil
+					break
+				}
+			}
+		}
 		offsetsMx.RUnlock()
 
 		if db.opts.MaxFollowAge > 0 {
